@@ -1383,6 +1383,8 @@ func (p *Printer) command(cmd Command, redirs []*Redirect) (startRedirs int) {
 			p.decLevel()
 		}
 		p.semiRsrv("esac", cmd.Esac)
+		// The ;; tokens above set wroteSemi, which no longer holds after esac.
+		p.wroteSemi = false
 	case *ArithmCmd:
 		p.w.WriteString("((")
 		if cmd.Unsigned {
